@@ -24,6 +24,7 @@ type Obj struct {
 	id     int
 	cells  []Value
 	frozen bool
+	isGlobal bool
 	epoch  int
 	label  string
 }
